@@ -18,7 +18,8 @@
 //	check:disagrees-libc       CheckPasswd(h, p) differs from "libc crypt(p, h[:2]) == h" for a well-formed DES hash h
 //	check:own-hash-rejected    CheckPasswd(GenPasswd(p), p) is not true for p[0] != 0; or a pair tagged accept is rejected
 //	check:wrong-key-accepted   a pair whose effective DES keys differ is accepted (sampled clause (d))
-//	crash:fcrypt|genpasswd|checkpasswd   a panic / stall inside the property's domain
+//	crash:fcrypt|genpasswd|checkpasswd   a panic / stall inside the property's domain (GenPasswd: any password)
+//	gen:empty-not-zero-hash    GenPasswd of an empty / NUL-first password is not the all-zero hash
 package main
 
 import (
@@ -227,11 +228,13 @@ func exec(line string, nontrivial bool) (out string, idx int) {
 			label = "gen:" + strings.ToLower(out) + ":" + pwClass(p)
 		}
 		idx = run.Op(line, out, label, nontrivial)
-		if len(p) > 0 {
-			if out == "PANIC" || out == "TIMEOUT" || out == "err" {
-				run.Fail(idx, "crash:genpasswd", fmt.Sprintf("GenPasswd(%q) with rand=%d: %s %s", p, num, out, hx.LastPanic))
-				return
-			}
+		// GenPasswd is total (repo fix cf9020f: the empty slice gives the empty hash instead of indexing passwd[0])
+		if out == "PANIC" || out == "TIMEOUT" || out == "err" {
+			run.Fail(idx, "crash:genpasswd", fmt.Sprintf("GenPasswd(%q) with rand=%d: %s %s", p, num, out, hx.LastPanic))
+			return
+		}
+		if (len(p) == 0 || p[0] == 0) && h != nil && !bytes.Equal(h, make([]byte, 14)) {
+			run.Fail(idx, "gen:empty-not-zero-hash", fmt.Sprintf("GenPasswd(%q) = %q, expected the all-zero hash (unable to log in)", p, h))
 		}
 		if len(p) > 0 && p[0] != 0 && h != nil {
 			ok := hx.Call(func() string {
@@ -627,5 +630,5 @@ func main() {
 		}
 		check(e, p, "reject")
 	}
-	run.Note("outside the property's salt domain (recorded, compared with the model): Fcrypt/CheckPasswd panic on a salt / stored hash shorter than 2 bytes or with a byte >= 0x80 in the first two; GenPasswd panics on the empty slice")
+	run.Note("outside the property's salt domain (recorded, compared with the model): Fcrypt/CheckPasswd panic on a salt / stored hash shorter than 2 bytes or with a byte >= 0x80 in the first two")
 }
